@@ -1234,7 +1234,7 @@ class OperatorVectorSum(Operator):
         ----------
         operator : `Operator`
             Operator to be used in the sum. Its
-            `Operator.range` must be a `LinearSpace`.
+            `Operator.range` must be a `LinearSpace` or `Field`.
         vector : ``operator.range`` `element-like`
             Vector to be added to the operator result.
 
@@ -1252,9 +1252,9 @@ class OperatorVectorSum(Operator):
             raise TypeError('`op` {!r} not a Operator instance'
                             ''.format(operator))
 
-        if not isinstance(operator.range, LinearSpace):
-            raise TypeError('`op.range` {!r} not a LinearSpace instance'
-                            ''.format(operator.range))
+        if not isinstance(operator.range, (LinearSpace, Field)):
+            raise TypeError('`op.range` {!r} not a LinearSpace or Field '
+                            'instance'.format(operator.range))
 
         super(OperatorVectorSum, self).__init__(
             operator.domain, operator.range)
